@@ -6,7 +6,7 @@ from hashlib import sha1
 
 import vf
 vf.use_repo()
-from ak.ghist import ProjectRepo, BuildNumData, GitRepo  # noqa: E402
+from ak.ghist import ProjectRepo, BuildNumData, GitRepo, RepoBuildsBySavedBuildNumDetector  # noqa: E402
 
 
 class Blob:
@@ -82,6 +82,17 @@ class Repo:
         self.refs["refs/tags/" + name] = self.commits[cid]
         self.tags[name] = cid
 
+    def add_commit(self, cid, parent_cids, message, ts, files, branch=None):
+        """a commit that arrives later (as after a fetch); optionally the new head of a branch"""
+        c = Commit(self.name, cid, [self.commits[p] for p in parent_cids], message, ts, files)
+        self.commits[cid] = c
+        self.by_hex[c.hexsha] = c
+        if branch is not None:
+            self.branches[branch] = cid
+            self.refs["refs/remotes/" + branch] = c
+            self.remotes = {'origin': Remote([Ref(b, self.commits[x]) for b, x in sorted(self.branches.items())])}
+        return c
+
     def commit(self, hexsha):
         return self.by_hex[hexsha]
 
@@ -144,6 +155,20 @@ def repo_for(repo_id, repo, remote='origin'):
     """the ProjectRepo class matching the tag format used in the mock repository"""
     cls = TRepoCI if any(t.startswith("ci-") for t in repo.tags) else TRepo
     return cls(repo_id, repo, remote)
+
+
+class TRepoSaved(TRepo):
+    """a project without build tags: a commit is a build when the build number saved in its VERSION file
+    differs from the numbers of all its parents (the module's alternative builds detector)"""
+
+    def make_builds_detector(self):
+        return RepoBuildsBySavedBuildNumDetector(self)
+
+
+def component_repo_for(repo_id, repo, remote='origin'):
+    saved = not repo.tags and any(c.tree.files.get("VERSION") is not None and
+                                  c.tree.files["VERSION"].data.count(b".") == 2 for c in repo.commits.values())
+    return (TRepoSaved if saved else TRepo)(repo_id, repo, remote)
 
 
 class PRepo(TRepo):
